@@ -198,6 +198,11 @@ func parseNumberFormatter(formatter string, value *value.Number) (string, error)
 				switch state {
 				case sFixedSign:
 					numFixedPrecision = numFixedPrecision*10 + int(ch-'0')
+					// a float64 never has more than 1074 fraction digits; larger values would
+					// overflow the precision accepted by fmt (or the int itself)
+					if numFixedPrecision > 1100 {
+						return "", zerr.NewErrorSLOT("无效的格式化字符串")
+					}
 				default:
 					return "", zerr.NewErrorSLOT("无效的格式化字符串")
 				}
